@@ -245,6 +245,38 @@ def deser(ctx):
     ctx.require(leaves == ['p2pkh', 'p2sh'], q, 'base58 addresses are classified as %s' % leaves, fn)
 
 
+@PROP.obligation('C05.parse-fields', canaries=[
+    mut.replace_expr('keys', 'Address.parse', "addr_dict['witver'] or 0", '0', 'witness version of a parsed address dropped'),
+])
+def parse_fields(ctx):
+    """Address.parse hands every decoded field of deserialize_address to the Address it returns: payload, prefix, script type, witness type,
+    encoding and the witness version (a parsed bc1p... address must not re-encode as version 0)."""
+    q = 'keys:Address.parse'
+    fn = ctx.repo.func(q)
+    it = Interp(ctx.repo, 'keys', hooks=LAYOUT_HOOKS)
+    fields = ('public_key_hash_bytes', 'prefix', 'script_type', 'witness_type', 'encoding', 'witver', 'network')
+    hooks = dict(LAYOUT_HOOKS)
+    hooks['deserialize_address'] = lambda interp, args, kwargs, st, node: {f: S(('decoded', f)) for f in fields}
+    it = Interp(ctx.repo, 'keys', hooks=hooks, self_cls='keys:Address')
+    exits = it.run_function(fn, {'cls': S(('global', 'Address')), 'address': S(('var', 'address'), 'str'), 'encoding': 'bech32', 'network': None})
+    rets = [e for e in exits if e.kind == 'return']
+    if not rets:
+        ctx.undecided('Address.parse: no return')
+    t = term(rets[-1].value)
+    if not (isinstance(t, tuple) and t[0] == 'call' and t[1] == 'Address'):
+        ctx.undecided('Address.parse does not return Address(...): %s' % show(t)[:100])
+    kw = dict(t[3])
+    want = {'hashed_data': 'public_key_hash_bytes', 'prefix': 'prefix', 'script_type': 'script_type', 'witness_type': 'witness_type', 'encoding': 'encoding', 'witver': 'witver', 'network': 'network'}
+    got = {}
+    for k, f in want.items():
+        v = kw.get(k)
+        src = sorted(set(s_[1] for s_ in subterms(('w', v)) if isinstance(s_, tuple) and len(s_) == 2 and s_[0] == 'decoded'))
+        got[k] = src
+        ctx.require(src == [f], q, 'Address(%s=...) is built from decoded fields %s, expected %s' % (k, src, f), fn,
+                    'the parsed address re-encodes differently (a taproot address comes back as a version 0 address of the same program)' if k == 'witver' else 'the parsed Address does not describe the address string')
+    ctx.saw('Address(...) arguments come from decoded fields %s' % got)
+
+
 @PROP.obligation('C05.payload', canaries=[
     mut.replace_expr('scripts', 'Script.parse_bytesio', 's.commands[2]', 's.commands[1]', 'p2pkh payload taken from the opcode position'),
 ])
